@@ -278,6 +278,27 @@ def gen_random(g, n, unpriv_share=0.2):
         idpool = [ZERO, ZERO, x, x, y]       # few identifiers: duplicates inside one directory are common
         populate(g, case, idpool, nmax=rng.choice([2, 4, 6, 9]))
         case["queries"] = std_queries([x, y, z, ZERO], extra_types=k % 7 == 0)
+        if k % 4 == 2:
+            # entries NEXT to the four configuration directories whose names merely begin like theirs (keyboard.bak/, gamepad.d/, gamepad_old/,
+            # keyboard-ideas.toml) or lie beside them (hidi-config/x.toml, user/x.toml): not configuration directories - nothing in them counts
+            sib = []
+            for _ in range(rng.randint(1, 4)):
+                parent = rng.choice(["user", "factory", "user", ""])
+                kind = rng.choice(["dir", "dir", "file"])
+                stem = rng.choice(["keyboard", "gamepad"])
+                if kind == "dir":
+                    name = stem + rng.choice([".bak", ".d", "_old", "2", " (copy)", "s", "-backup", "~"])
+                    node = {"t": "d", "name": name, "mode0": False, "ch": [g.newfile(case, rng.choice(["0_default.toml", "a.toml", "zz.toml"]), rng.choice(idpool), "valid")
+                                                                          for _ in range(rng.randint(1, 2))]}
+                    names = set()
+                    node["ch"] = [c for c in node["ch"] if not (c["name"] in names or names.add(c["name"]))]
+                else:
+                    node = g.newfile(case, stem + rng.choice(["-ideas.toml", ".toml", "_old.toml"]), rng.choice(idpool), "valid")
+                if (parent, node["name"]) not in {(p_, n_["name"]) for p_, n_ in sib}:
+                    sib.append((parent, node))
+                    g.count("sibling:" + ("directory" if kind == "dir" else "file") + " beside the configuration directories")
+            case["siblings"] = sib
+            case["tags"].append("siblings")
         if k % 3 == 1 and not case["unpriv"]:
             case["warm"] = rng.randrange(1, 10 ** 9)       # the same directory was loaded before with other contents (see harness_case)
             case["tags"].append("warm-reload")
@@ -327,6 +348,15 @@ def rng_choice_id(g, x):
 
 # ----------------------------------------------------------------------------- case -> harness ops
 
+def _strip_links(node):
+    """sibling entries are written as plain files (no symlink indirection): they are outside the model's trees"""
+    if node["t"] == "f":
+        node["link"] = False
+    for c in node.get("ch", []):
+        _strip_links(c)
+    return []
+
+
 def case_ops(case):
     ops, probes = [], []
     blk = case.get("block")
@@ -368,6 +398,13 @@ def case_ops(case):
         if root["state"] == "missing":
             continue
         emit(root["node"], DIRS[d])
+    for parent, node in case.get("siblings", []):
+        if blk or case.get("block_missing"):
+            break
+        base = "hidi-config" + ("/" + parent if parent else "")
+        for l in _strip_links(node):
+            pass
+        emit(node, base + "/" + node["name"])
     if blk in parents and not case.get("block_missing"):
         ops.append({"op": "chmod", "path": parents[blk], "mode": 0})
         probes.append(parents[blk])
@@ -669,6 +706,8 @@ def execute(run_, cases):
     for c, r in zip(cases, results):
         if r["setup"]:
             raise CheckError("harness could not materialise a tree: %s" % r["setup"])
+        if c.get("siblings"):
+            r["verdicts"] = r["verdicts"][:len(file_nodes(c))]      # the sibling entries are written last and are not part of the model's trees
         if len(r["verdicts"]) != len(file_nodes(c)):
             raise CheckError("harness returned %d parse verdicts for %d files" % (len(r["verdicts"]), len(file_nodes(c))))
         if c["unpriv"]:
